@@ -547,3 +547,7 @@ def check(repo, rep, tier):
     # "the same categories" -- the shipped lexicon spells the comma category with a trailing blank
     from .c05 import r_delimiters
     r_delimiters(repo.module('depccg/cat.py'), rep, 'R20.6')
+    from .c05 import r_atoms
+    r_atoms(repo.module('depccg/cat.py'), rep, 'R20.6')
+    from .c15 import r_extension_dispatch_text
+    r_extension_dispatch_text(repo, rep, 'R20.4', 'read_ptb')
